@@ -113,6 +113,7 @@ pub fn build_base(t: &mut Tape, cfg: &CaseCfg, stats: &mut GenStats) -> Option<B
             indent_tabs: t.chance(15),
             commas: t.chance(10),
             directive_noise: if t.chance(40) { t.u64() | 1 << 40 } else { 0 },
+            declare_builtin_scalars: t.chance(10),
         };
         let ext = *t.pick(&["graphql", "graphql", "graphqls", "gql"]);
         (schema.to_sdl(&st), ext.to_string())
